@@ -11,10 +11,11 @@
 (***************************************************************************)
 EXTENDS Conn, Json
 
-CONSTANT K          \* maximal sequence length
+CONSTANTS K,        \* maximal number of adversarial frames after the base prefix
+          Bases     \* subset of {"idle", "deliver", "header", "body2"}: collector states to start from
 
-VARIABLES w, hist
-gvars == <<w, hist>>
+VARIABLES w, hist, plen
+gvars == <<w, hist, plen>>
 
 M(ch, name) == [k |-> "method", ch |-> ch, name |-> name, tag |-> "c1"]
 
@@ -75,16 +76,28 @@ Base ==
     LET w1 == Alloc(Alloc(EmptyWorld, 1, "A"), 2, "B")
     IN [w1 EXCEPT !.slots[1].cons = Put(@, "t1", "c1"), !.cq = Put(@, "c1", [q |-> <<>>, tx |-> TRUE, unsure |-> FALSE, rx |-> TRUE])]
 
-GInit == w = Base /\ hist = <<>>
+\* base prefixes: the collector of channel 1 idle / after Deliver / after the header / mid-body
+DeliverSym == [k |-> "deliver_m", ch |-> 1, tag |-> "c1", mid |-> 1, len |-> 4]
+HeaderSym == [k |-> "header", ch |-> 1, mid |-> 1, size |-> 4]
+Body2Sym == [k |-> "body", ch |-> 1, mid |-> 1, len |-> 2]
+Prefix(b) == CASE b = "idle" -> <<>>
+               [] b = "deliver" -> <<DeliverSym>>
+               [] b = "header" -> <<DeliverSym, HeaderSym>>
+               [] OTHER -> <<DeliverSym, HeaderSym, Body2Sym>>
+RECURSIVE Play(_, _)
+Play(x, syms) == IF syms = <<>> THEN x ELSE Play(Settle(Dispatch(x, FrameOf(Head(syms)))), Tail(syms))
+
+GInit == \E b \in Bases : w = Play(Base, Prefix(b)) /\ hist = Prefix(b) /\ plen = Len(Prefix(b))
 
 GNext == \E a \in Alphabet :
-            /\ ~w.gone /\ w.phase = "steady" /\ Len(hist) < K
+            /\ ~w.gone /\ w.phase = "steady" /\ Len(hist) - plen < K
             /\ w' = Settle(Dispatch(w, FrameOf(a)))
             /\ hist' = Append(hist, a)
+            /\ plen' = plen
 
 GSpec == GInit /\ [][GNext]_gvars
 
-View == w
+View == <<w, Len(hist) - plen>>
 
 Emit == PrintT(<<"CASE", ToJson(hist')>>)
 
